@@ -150,7 +150,7 @@ func (g *c12Gen) boolean(p string) string {
 func (g *c12Gen) item(p string, i int, top bool) string {
 	alias := fmt.Sprintf("c%d", i)
 	kinds := []string{"col", "num", "str", "bool", "null", "tuple", "array", "subquery", "exists", "async", "backref", "nestedcol", "first", "last", "elementat", "once", "objcol", "fuse", "asyncstr", "subquery_async",
-		"fuse_sub", "await", "star_sub", "selector", "hash", "encode", "fuse_alias", "report", "constant", "scoped", "marker_col", "await_sub", "nested_marker", "fuse_async"}
+		"fuse_sub", "await", "star_sub", "selector", "hash", "encode", "fuse_alias", "report", "constant", "scoped", "marker_col", "await_sub", "nested_marker", "fuse_async", "fuse_await"}
 	if !top || p != "" {
 		kinds = []string{"col", "num", "str", "bool", "null", "tuple", "array", "async", "objcol"}
 	}
@@ -221,6 +221,15 @@ func (g *c12Gen) item(p string, i int, top bool) string {
 		g.site++
 		g.sites = append(g.sites, g.site)
 		return fmt.Sprintf("FUSE((SELECT ASYNC.fx(%d, a) AS fa%d FROM dual))", g.site, g.site)
+	case "fuse_await":
+		// the fused row of a nested select holds the slot of an AWAIT: a slot around a slot (ASYNC), or one that
+		// resolves to "no column" (SETVAR)
+		if g.pick("fuse_await_form", "async", "setvar") == "setvar" {
+			return fmt.Sprintf("FUSE((SELECT AWAIT(SETVAR('k', %sid)) AS fv%d, %sid AS fw%d FROM dual))", p, i, p, i)
+		}
+		g.site++
+		g.sites = append(g.sites, g.site)
+		return fmt.Sprintf("FUSE((SELECT AWAIT(ASYNC.fx(%d, a)) AS fa%d FROM dual))", g.site, g.site)
 	case "fuse_alias":
 		// an aliased FUSE blends the keys in under a prefix
 		return fmt.Sprintf("FUSE(%s) AS %s", g.pick("fuse_alias_arg", "o", "(SELECT p, q FROM o)", "(SELECT * FROM dual)"), alias)
@@ -446,7 +455,13 @@ func genC12(t *rapid.T) *Bundle {
 			"SELECT id, (SELECT * FROM `<-` AS p) AS s FROM %s",
 			"SELECT id, (SELECT p FROM `<-` AS p) AS s FROM %s",
 			"SELECT id, (SELECT (SELECT `<-<-` AS d FROM dual) AS s2 FROM dual) AS s1 FROM %s",
-			"SELECT id, (SELECT `<-` AS d FROM dual) AS s1 FROM %s"), T)
+			"SELECT id, (SELECT `<-` AS d FROM dual) AS s1 FROM %s",
+			// ... and the rows {p: document} carried on by GROUP BY (under `*`, or as the grouping column itself)
+			"SELECT id, (SELECT * FROM `<-` AS p GROUP BY p.id) AS s FROM %s",
+			"SELECT id, (SELECT (SELECT `*` AS g FROM `<-` AS p GROUP BY p.id) AS s2 FROM dual) AS s FROM %s",
+			"SELECT id, (SELECT p FROM `<-` AS p GROUP BY p) AS s FROM %s",
+			"SELECT id, (SELECT * FROM `<-` GROUP BY id) AS s FROM %s",
+			"SELECT id, (SELECT (SELECT * FROM `<-` GROUP BY id) AS s2 FROM dual) AS s FROM %s"), T)
 		if rapid.IntRange(0, 2).Draw(t, "scope_dual") == 0 {
 			q = with + fmt.Sprintf("SELECT %s FROM dual", g.pick("scope_whole_row", "`mix=>` AS m", "`::` AS d", "`mix=>` AS m, `::` AS d"))
 		}
